@@ -42,6 +42,7 @@ type extOp struct {
 }
 
 type extCfg struct {
+	Only string `json:"only,omitempty"` // run only behaviours with this label on the configuration
 	Size     int64  `json:"size"`
 	Start    int64  `json:"start"`
 	SPB      int    `json:"spb"` // sectors per block (0 = default)
@@ -89,6 +90,7 @@ func extParams(cfg extCfg) *ext4.Params {
 
 type extRun struct {
 	straddleReached bool // the Straddle macro brought the lowest free block to the last block of a group
+	edgeReached     bool // the GroupEdge macro brought the lowest free block to the first block of a group
 	fsckMid         int  // worst e2fsck exit status seen INSIDE a macro call (0 = clean)
 	cfg    extCfg
 	vol    *fsx.Vol
@@ -304,6 +306,7 @@ func (r *extRun) event(op extOp, res, panicked string, same []int) map[string]an
 	ev["outside"] = out
 	ev["fsckmid"] = r.fsckMid
 	ev["straddle"] = r.straddleReached
+	ev["edge"] = r.edgeReached
 	r.fsckMid = 0
 	if r.cfg.Fsck {
 		code, text := r.fsck()
@@ -476,6 +479,8 @@ func (r *extRun) do(op extOp) map[string]any {
 			}
 		case "Straddle":
 			err = r.straddle()
+		case "GroupEdge":
+			err = r.groupEdge()
 		case "BigFile":
 			bigok, err = r.bigFile(op.K)
 		case "Debugfs":
@@ -705,6 +710,164 @@ func (r *extRun) straddle() error {
 		}
 	}
 	return nil
+}
+
+// groupEdge puts two files at block-group boundaries - X1 fills a whole group g from its first block, X2
+// starts at the first block of group g+1 - then removes X2, writes a small X3 (which takes the lowest
+// free block) and reads X1 back: releasing a file whose extent begins at a group boundary must not
+// disturb the file that owns the boundary block of the neighbouring group.  The free-block map comes
+// from the reference tool (dumpe2fs).  Net effect on the tree: none.
+func (r *extRun) groupEdge() error {
+	fs := r.vol.FS
+	gs, err := r.freeLayout()
+	if err != nil || len(gs) < 3 {
+		return nil
+	}
+	allFree := func(g extGroup) bool {
+		for b := g.first; b <= g.last; b++ {
+			if !g.free[b] {
+				return false
+			}
+		}
+		return true
+	}
+	gi := -1
+	for g := 1; g+1 < len(gs); g++ {
+		if allFree(gs[g]) && gs[g+1].free[gs[g+1].first] && gs[g+1].free[gs[g+1].first+1] {
+			gi = g
+			break
+		}
+	}
+	if gi < 0 {
+		return nil
+	}
+	target := gs[gi].first
+	var made []string
+	cleanup := func() error {
+		var first error
+		for i := len(made) - 1; i >= 0; i-- {
+			if e := fs.Remove(made[i]); e != nil && first == nil {
+				first = fmt.Errorf("cannot remove %s: %v", made[i], e)
+			}
+		}
+		return first
+	}
+	writeFile := func(name string, tag int, blocks int64) error {
+		f, e := fs.OpenFile(name, os.O_CREATE|os.O_RDWR)
+		if e != nil {
+			return e
+		}
+		made = append(made, name)
+		_, e = f.Write(r.content(tag, 0, blocks*r.B))
+		f.Close()
+		return e
+	}
+	// use up the free blocks below the first block of group gi, one contiguous run per round
+	for round := 0; round < 8; round++ {
+		cur, e := r.freeLayout()
+		if e != nil {
+			break
+		}
+		lf := int64(-1)
+		for _, g := range cur {
+			for b := g.first; b <= g.last && lf < 0; b++ {
+				if g.free[b] {
+					lf = b
+				}
+			}
+			if lf >= 0 {
+				break
+			}
+		}
+		if lf < 0 || lf >= target {
+			break
+		}
+		run := int64(0)
+		for b := lf; b < target; b++ {
+			free := false
+			for _, g := range cur {
+				if g.free[b] {
+					free = true
+				}
+			}
+			if !free {
+				break
+			}
+			run++
+		}
+		if run == 0 || writeFile(fmt.Sprintf("edge-pad-%d.bin", round), 5, run) != nil {
+			break
+		}
+	}
+	cur, e := r.freeLayout()
+	if e != nil {
+		cleanup()
+		return nil
+	}
+	reached := false
+	for _, g := range cur {
+		for b := g.first; b <= g.last; b++ {
+			if g.free[b] {
+				reached = b == target
+				goto found
+			}
+		}
+	}
+found:
+	if !reached {
+		return cleanup()
+	}
+	r.edgeReached = true
+	gsize := gs[gi].last - gs[gi].first + 1
+	if e := writeFile("edge-x1.bin", 21, gsize); e != nil {
+		cleanup()
+		return nil // no room for the experiment
+	}
+	if e := writeFile("edge-x2.bin", 22, 2); e != nil {
+		cleanup()
+		return nil
+	}
+	if e := fs.Remove("edge-x2.bin"); e != nil {
+		cleanup()
+		return fmt.Errorf("cannot remove the file at the group boundary: %v", e)
+	}
+	made = made[:len(made)-1]
+	check := func(when string) error {
+		if r.cfg.Fsck {
+			if code, text := r.fsck(); code != 0 {
+				r.fsckMid = code
+				return fmt.Errorf("e2fsck exit %d %s: %s", code, when, text)
+			}
+		}
+		return nil
+	}
+	if e := check("after removing a file whose extent begins at a block group boundary"); e != nil {
+		cleanup()
+		return e
+	}
+	if e := writeFile("edge-x3.bin", 23, 1); e != nil {
+		cleanup()
+		return nil
+	}
+	g, e := fs.OpenFile("edge-x1.bin", os.O_RDONLY)
+	if e != nil {
+		cleanup()
+		return fmt.Errorf("file that fills a block group cannot be opened: %v", e)
+	}
+	got, e := fsx.ReadAll(g, gsize*r.B+10)
+	g.Close()
+	if e != nil || !bytes.Equal(got, r.content(21, 0, gsize*r.B)) {
+		cleanup()
+		return fmt.Errorf("file that fills a block group reads back differently after its neighbour at the group boundary was removed and a new file written (err %v, %d bytes)", e, len(got))
+	}
+	if e := check("with files at block group boundaries"); e != nil {
+		cleanup()
+		return e
+	}
+	if e := cleanup(); e != nil {
+		return e
+	}
+	return check("after removing the files at block group boundaries")
 }
 
 // bigFile writes a file of nblocks blocks outside the universe in irregular pieces (forward,
